@@ -241,8 +241,8 @@ def text(summary):
 
 
 def compare(ctx, rule, construct, where, what, found_paths, refs, names=None, hook=None, raises=True, fact=None, why="",
-            track=()):
-    canon = Canon(atom_hook=hook)
+            track=(), rewrite=None):
+    canon = Canon(atom_hook=hook, rewrite=rewrite)
     need(found_paths, f"{what}: no path")
     found = summarise(found_paths, canon, what, raises=raises, track=track)
     wants = [reference_summary(r, names, canon, what, track=track) if isinstance(r, str) else r for r in refs]
@@ -259,8 +259,13 @@ def compare(ctx, rule, construct, where, what, found_paths, refs, names=None, ho
         # a reference without bit-level or division constructs: integer polynomials are compared exactly by the canonical form
         extra -= {"poly@value", "poly@width"}
     if extra:
-        raise AnalysisError(f"{what}: the code uses constructs {sorted(extra)} that the reference semantics of this rule does not "
-                            f"({where}); equivalence cannot be decided — found `{text(found)[:400]}`")
+        msg = (f"{what}: the code uses constructs {sorted(extra)} that the reference semantics of this rule does not "
+               f"({where}); equivalence cannot be decided — found `{text(found)[:400]}`")
+        if hasattr(ctx, "defer"):
+            ctx.defer(rule, msg)
+            ctx.ok(rule, construct + ":unrecognised", "not comparable with the reference (reported as analysis error)", where)
+            return None
+        raise AnalysisError(msg)
     ctx.viol(rule, construct, f"{what} computes `{text(found)[:500]}`; required: `{text(wants[0])[:500]}`. {why}".strip(), where)
     return False
 
